@@ -3,7 +3,7 @@
 From Verif.Base Require Import Bytes PathClean.
 From Verif.Gen Require Import GenConsts.
 From Verif.Module Require Import Path.
-From Verif.Zip Require Import Check Create ProofsColl ProofsClass ProofsZip ProofsRules ProofsDirList ProofsRepeated.
+From Verif.Zip Require Import Check Create ProofsPath ProofsColl ProofsClass ProofsZip ProofsRules ProofsDirList ProofsRepeated ProofsDirTree.
 From Coq Require Import Sorting.Permutation.
 
 (* For a list of files with distinct paths, every path is in exactly one of Valid, Omitted
@@ -150,23 +150,64 @@ Proof.
 Qed.
 Print Assumptions C17_no_collision_report_free.
 
-(* Directory versus list.  FULL STATEMENT (DESIGN.md dir_vs_list_agree), not proved in this form:
-     for every tree ch of regular files and directories (well-formed distinct names) without
-     .bzr/.git/.hg/.svn directories,
-       c_valid (check_files (fst (list_files_in_dir ch))) = c_valid (check_files (all_regular_files ch))
-       (same order), the Invalid lists are equal, and create succeeds on one list iff on the other
-       with the same entries.
-   PROVED: the same conclusion for every tree that satisfies the decidable side condition
-   dir_list_condition (Zip/Check.v): the pruned listing is the plain list minus some files, every
-   dropped file is omitted by checkFiles before the collision check, the path-only decisions of
-   the kept files are the same with the go.mod directories of either list, and both lists select
-   the same go version.  The list-level core is check_files_filter_agree (ProofsDirList.v).
-   MISSING: dir_list_condition ch = true for every well-formed plain tree (an induction over the
-   walk of listFilesInDir plus two closure facts about isVendoredPackage: a vendored directory
-   or a vendored go.mod-named file has only vendored files below / beside it).  The condition is
-   evaluated by the model on every generated plain tree (correspondence case
-   "zip.DirListCondition", expected 1), and the implementation-side oracle dir-vs-list compares
-   CheckDir/CreateFromDir with CheckFiles/Create on the same trees. *)
+(* Directory versus list (DESIGN.md dir_vs_list_agree).  For a directory tree made only of
+   regular files and directories, with well-formed distinct names in every directory and no
+   .bzr/.git/.hg/.svn directories ([plain]: every name is a good path element and not a VCS
+   name, names are distinct, files are regular), the list check on the pruned listing that
+   listFilesInDir produces (what CheckDir / CreateFromDir use) and on the plain list of all
+   regular files of the tree report the same valid files in the same order, the same invalid
+   files and the same size error, and Create gives the same result (success or the same error
+   class, and the same entries) on both lists. *)
+Theorem C17_dir_vs_list_agree :
+  forall (ch : list (str * tnode)),
+    plain (TDir ch) ->
+    let fl := fst (list_files_in_dir ch) in
+    let fa := all_regular_files ch in
+    c_valid (check_files fl) = c_valid (check_files fa) /\
+    c_invalid (check_files fl) = c_invalid (check_files fa) /\
+    c_sizeerr (check_files fl) = c_sizeerr (check_files fa) /\
+    valid_files fl = valid_files fa /\
+    (forall mp mv, create mp mv fl = create mp mv fa).
+Proof. exact dir_vs_list_agree. Qed.
+Print Assumptions C17_dir_vs_list_agree.
+
+(* [plain], spelled out *)
+Theorem C17_plain_unfold :
+  forall ch, plain (TDir ch) <->
+    NoDup (map fst ch) /\
+    Forall (fun nc => good_elem (fst nc) /\ is_vcs_name (fst nc) = false /\ plain (snd nc)) ch.
+Proof. intros ch. split; [intros H; inversion H; auto|intros [H1 H2]; constructor; assumption]. Qed.
+Print Assumptions C17_plain_unfold.
+
+(* the two facts about isVendoredPackage behind it: everything below a vendored directory is
+   vendored, and everything beside or below a vendored file other than vendor/modules.txt is *)
+Theorem C17_vendored_closure :
+  (forall D rest ge124, is_vendored_package D ge124 = true ->
+     is_vendored_package (D ++ 47 :: rest) ge124 = true) /\
+  (forall d base rest ge124, ~ In 47 base -> d ++ base <> B "vendor/modules.txt" ->
+     is_vendored_package (d ++ base) ge124 = true -> is_vendored_package (d ++ rest) ge124 = true).
+Proof. split; [exact vendored_below|exact vendored_sibling]. Qed.
+Print Assumptions C17_vendored_closure.
+
+(* non-vacuity of [plain]: a tree with a root go.mod, a package, a nested module and a vendored
+   package *)
+Example C17_plain_example :
+  plain (TDir [(B "go.mod", TFile MRegular (B "module m") true);
+               (B "a", TDir [(B "x.go", TFile MRegular (B "x") false)]);
+               (B "sub", TDir [(B "go.mod", TFile MRegular (B "") false)]);
+               (B "vendor", TDir [(B "p", TDir [(B "q.go", TFile MRegular (B "q") false)])])]).
+Proof.
+  assert (G : forall s : str, s <> [] -> ~ In 47 s -> s <> dot -> s <> dotdot -> good_elem s)
+    by (intros s H1 H2 H3 H4; repeat split; assumption).
+  repeat (first [ apply plain_file
+                | apply plain_dir; [cbn; repeat constructor; cbn; intuition discriminate|]
+                | apply Forall_nil
+                | apply Forall_cons; [split; [apply G; vm_compute; intuition discriminate|split; [reflexivity|]]|] ]).
+Qed.
+
+(* The same conclusion from a decidable side condition instead of [plain] (kept because the
+   model evaluates the condition on every generated plain tree: correspondence case
+   "zip.DirListCondition", expected 1). *)
 Theorem C17_dir_vs_list_agree_partial :
   forall (ch : list (str * tnode)),
     dir_list_condition ch = true ->
